@@ -162,7 +162,14 @@ def scan_global_writes(f):
     def visit(body, prefix):
         for n in body:
             if isinstance(n,(ast.FunctionDef,ast.AsyncFunctionDef)): in_func(n, prefix+n.name); 
-            elif isinstance(n,ast.ClassDef): visit(n.body, prefix+n.name+".")
+            elif isinstance(n,ast.ClassDef):
+                # a mutable object bound in a class body is shared by every instance (and by every call that makes one)
+                for b in n.body:
+                    if isinstance(b,(ast.Assign,ast.AnnAssign)) and b.value is not None:
+                        v=b.value
+                        if isinstance(v,(ast.List,ast.Dict,ast.Set,ast.ListComp,ast.DictComp,ast.SetComp)) or (isinstance(v,ast.Call) and ast.unparse(v.func) in ("list","dict","set","defaultdict","OrderedDict","collections.defaultdict","collections.OrderedDict","deque","collections.deque")):
+                            out.append((prefix+n.name,"class-level mutable "+ast.unparse(b)[:60],b.lineno))
+                visit(n.body, prefix+n.name+".")
     visit(tree.body,"")
     return out
 
